@@ -163,8 +163,10 @@ class _Safe:
         except Exception as ex:
             tb = traceback.extract_tb(ex.__traceback__)
             repo = os.path.abspath(os.environ.get('VERIF_REPO', '/repo'))
-            if tb and os.path.abspath(tb[-1].filename).startswith(repo + '/teneva/'):
-                where = '%s:%s' % (os.path.relpath(tb[-1].filename, repo), tb[-1].name)
+            last_h = max([j for j, f in enumerate(tb) if '/harness/' in f.filename] or [-1])
+            lib_frames = [f for f in tb[last_h + 1:] if os.path.abspath(f.filename).startswith(repo + '/teneva/')]
+            if lib_frames:
+                where = '%s:%s' % (os.path.relpath(lib_frames[-1].filename, repo), lib_frames[-1].name)
                 return [('viol', 'raised:' + where, 'the library raised %s: %s in %s on an input of the check' % (type(ex).__name__, ex, where),
                          {'task': repr(task)[:2000], 'traceback': traceback.format_exc()})]
             raise
